@@ -179,6 +179,8 @@ UNITS["C16"] = [
 ]
 
 UNITS["C05"] = [
+    dict(kind="structural", name="c05_flags", check="exists_binding", file="crates/klukai-agent/src/api/peer/mod.rs", fn="handle_need",
+         trusted=["rusqlite binds named parameters by name and returns columns in SELECT order"]),
     dict(kind="structural", name="c05_chunker_ranges", check="chunker_ranges", file="crates/klukai-agent/src/api/peer/mod.rs", fn="handle_need",
          trusted=["syntactic comparison of the SQL parameter bindings with the chunker's (start, end) arguments (vx/structural.py chunker_ranges)"]),
     dict(kind="structural", name="c05_snapshot", check="single_snapshot", file="crates/klukai-agent/src/api/peer/mod.rs", fn="handle_need",
@@ -194,7 +196,7 @@ UNITS["C05"] = [
          under_contract=["frag_prefilter", "frag_empties_full", "frag_empties_partial", "frag_clip", "lemma_sql_selects_iff_overlap"],
          vacuity=["frag_prefilter", "frag_empties_full", "frag_empties_partial", "frag_clip"],
          assumptions=["fragments wrapped as functions; `continue` -> return Exit::Continue; Option::is_some_and / RangeInclusive::all replaced by contract stand-ins with the real closures kept (closure ensures spliced)",
-                      "`buffered` / `in_gaps` are the results of the two EXISTS sub-queries (SQL not interpreted here)",
+                      "`buffered` / `in_gaps` are the results of the two EXISTS sub-queries: their binding (name <-> alias <-> table and filter <-> parameters) is decided by unit c05_flags; what SQLite returns for them is not interpreted",
                       "SQL WHERE fragment translated by vx/sqlpred.py; SQLite integer comparison treated as mathematics"]),
 ]
 
